@@ -112,4 +112,40 @@ PROPS["C19"] = {
     "assumptions": ["the multiplier chosen for each logicalType is observed through the schemas the harness supplies (swapping them is caught by the oracle)"],
 }
 
+CODEC_TRUST = ["the codec model (AvroModel/Codec.lean, Build.lean) is hand-written; tied to /repo by differential execution of "
+               "Schema.Codec + Codec.Read/Skip/Write on generated (schema, Go type, datum, plan) cases",
+               "reflect.StructOf-built target types stand for declared struct types",
+               "hardware float32<->float64 conversion, time.Date/Format (parameters of the model: Env)"]
+PROPS["C03"] = {
+    "lean_modules": ["AvroModel.Props.C03"],
+    "required_theorems": ["decode", "decode_ok", "misfit_is_error", "int_out_of_range", "array_plan_irrelevant", "read_never_panics"],
+    "harness": [("RD", "C03")],
+    "level_text": "Proof: `decode` - for every schema the specification defines, every datum, every writer plan (any block partition of arrays "
+                  "and maps, with or without byte-size prefixes, null in either union position, multi-branch unions), every Go target for which "
+                  "the model of build.go constructs a decoder, every trailing input and every step budget, the model of Codec.Read returns the Go "
+                  "value the datum denotes (ofAvro) and the exact remainder; a datum that does not fit the target is an error (induction over the "
+                  "step budget; ~1500 lines of Lean incl. the construction lemma buildOkAt). Tie: generated (schema, datum, plan, compatible "
+                  "target) cases; the harness's encoding is re-computed by the Lean specification encoder, the real decoder's result is compared "
+                  "with the model's and with ofAvro.",
+    "level_note": "Trusted: Lean kernel; spec transcription (Wire.lean) of Avro 1.8 binary encoding; model-to-code tie is differential. File-level partition/compression is covered by C07/C01.",
+    "rule": "Random record schemas (depth <= 4 quick / 6 thorough; all primitive types, fixed, nested records, arrays, maps, nullable unions with "
+            "null first or second, single- and multi-branch unions), random datums with boundary integers/float specials, random plans "
+            "(multi-block, size-prefixed), compatible targets varying pointer indirection / integer width / float width / null.* wrappers.",
+    "trusted": CODEC_TRUST,
+}
+PROPS["C04"] = {
+    "lean_modules": ["AvroModel.Props.C04"],
+    "required_theorems": ["skip_exact", "skip_exact_built", "skip_eq_read", "untargeted_field_untouched", "no_matching_fields", "remaining_field_value"],
+    "harness": [("RD", "C04")],
+    "level_text": "Proof: skip consumes exactly the bytes of a datum for every codec, datum, plan (incl. the block-size fast path) and budget "
+                  "(skip_exact); skip and read leave the same remainder (skip_eq_read); untargeted Go fields keep their value, a struct with no "
+                  "matching field is returned unchanged, and the value delivered into a remaining field depends only on that field's codec, datum "
+                  "and initial value (projection invariance). Tie: every generated encoding is read into a full target, a projected target "
+                  "(fields deleted, permuted, added, at every depth), a no-match target, and skipped; remaining lengths and values compared.",
+    "level_note": "Trusted: Lean kernel; Wire.lean spec; differential tie for the model.",
+    "rule": "Same generator as C03 plus projected targets (each field dropped with probability 1/3 at every nesting level, extra unrelated "
+            "fields, shuffled order) and a struct with no matching field; Skip on the full codec.",
+    "trusted": CODEC_TRUST,
+}
+
 NOT_APPLICABLE = {}
